@@ -1405,8 +1405,8 @@ class Vector():
 		if type(other).__name__ == 'Table':
 			if not self._dtype.nullable and not other.schema().nullable and self._dtype.kind != other.schema().kind:
 				raise SerifTypeError("Cannot concatenate two typesafe Vectors of different types")
-			return Vector((self,) + other.cols(),
-				dtype=self._dtype)
+			# no dtype: equal lengths give a Table, unequal lengths a vector of vectors typed by inference
+			return Vector((self,) + other.cols())
 		if isinstance(other, Vector):
 			if not self._dtype.nullable and not other.schema().nullable and self._dtype.kind != other.schema().kind:
 				raise SerifTypeError("Cannot concatenate two typesafe Vectors of different types")
